@@ -6,6 +6,8 @@ import Uquic.Model.Wire.Header
 import Uquic.Model.Wire.TransportParams
 import Uquic.Model.Wire.Token
 import Uquic.Model.Wire.Split
+import Uquic.Model.Wire.VNHeap
+import Uquic.Model.Wire.Ticket
 import Uquic.Spec.WireMon
 
 open Uquic.Oracle Uquic.Model.Wire Uquic.Spec.WireMon
@@ -257,6 +259,15 @@ structure St where
       their exponent is a function of the ops only (last `setexp` / numeric exponent of a parse op), so
       the monitors may use it as ghost state -/
   parsers : List (String × Parser) := []
+  /-- `vnc`: the parameters that name the caller's memory (consecutive ops with the same key share it) -/
+  stkEncs : List (String × List String) := []     -- (impl hex, tp words) of recent `stk`
+  vnKey : Option String := none
+  /-- model: arrays 0 (versions) and 1 (receive buffer) of the `VNHeap` heap -/
+  vnHeap : List (List Nat) := []
+  /-- ghost, from the op line only: both arrays as the driver built them -/
+  vnGhostV : List Nat := []
+  vnGhostB : Bytes := []
+  vnCalls : Nat := 0
 
 abbrev Fail := String × String × String
 
@@ -911,6 +922,72 @@ def stepCore (s : St) (op impl : String) : St × StepOut :=
       | .error e => s!"E:{terrName e}"
     let dupFails : List Fail := summFails "tpstdec" [] (unhx h) (if impl.startsWith "ok" then "ok" else impl)
     (s, { model := model, tags := [s!"tpstdec:{if model.startsWith "ok" then "ok" else model}"], fails := dupFails })
+  | "stk" :: fw =>
+    let p := tpOfWords fw
+    let model := match Ticket.ticketMarshal p with
+      | some b => hx b
+      | none => "PANIC"
+    -- monitor: the envelope is the revision varint, then what MarshalForSessionTicket writes on its own
+    let fails : List Fail :=
+      if isPanic impl then (if model = "PANIC" then [] else [("no_panic", "-", "sessionTicket.Marshal panicked on encodable parameters")]) else
+      match specVarint (unhx impl) with
+      | some (v, _) => if v ≠ Ticket.revision then [("ticket_revision", "-", s!"a fresh ticket starts with revision {v}, the library's is {Ticket.revision}")] else []
+      | none => [("ticket_revision", "-", "a fresh ticket does not start with a varint")]
+    let s' := if isPanic impl then s else { s with stkEncs := keep 4 (impl, fw) s.stkEncs }
+    (s', { model := model, tags := [s!"stk:{if model = "PANIC" then "panic" else "ok"}"], fails := fails })
+  | ["stkdec", h] =>
+    let b := unhx h
+    let model := match Ticket.ticketUnmarshal b with
+      | .ok p => s!"ok {fmtTP p}"
+      | .error .revRead => "E:revread"
+      | .error (.revision r) => s!"E:rev({r})"
+      | .error (.tp .panic) => "PANIC"
+      | .error (.tp e) => s!"E:tp:{terrName e}"
+    let iw := words impl
+    let fails : List Fail := Id.run do
+      let mut fails : List Fail := noPanic []
+      -- another revision is refused, whatever follows
+      match specVarint b with
+      | some (v, n) =>
+        if v ≠ Ticket.revision ∧ impl ≠ s!"E:rev({v})" ∧ !isPanic impl then
+          fails := fails ++ [("ticket_revision", "-", s!"a ticket of revision {v} (the library's is {Ticket.revision}) was answered `{(impl.take 60).toString}`")]
+        if v = Ticket.revision ∧ impl.startsWith "ok" then
+          fails := fails ++ summFails "tpstdec" [] (b.drop n) "ok"
+      | none =>
+        if impl.startsWith "ok" then fails := fails ++ [("ticket_revision", "-", "a ticket without a complete revision varint was accepted")]
+      -- what Marshal wrote comes back
+      match s.stkEncs.find? (fun e => e.1 = h) with
+      | some (_, ew) =>
+        if kvn ew "sb=" ≤ 2 ^ 60 ∧ kvn ew "su=" ≤ 2 ^ 60 ∧ kvn ew "acl=" ≥ 2 ∧ !isPanic impl then
+          if !impl.startsWith "ok" then
+            fails := fails ++ [("ticket_roundtrip", "-", s!"a fresh ticket is refused: {impl}")]
+          else
+            let bad := ["bl=", "br=", "un=", "md=", "sb=", "su=", "acl=", "dg=", "rsa="].filter (fun k => kv ew k ≠ kv iw k)
+            if !bad.isEmpty then
+              fails := fails ++ [("ticket_roundtrip", "-", s!"fields {bad} changed: stored `{" ".intercalate ew}` restored `{impl}`")]
+      | none => pure ()
+      return fails
+    (s, { model := model, tags := [s!"stkdec:{if model.startsWith "ok" then "ok" else if model.startsWith "E:rev(" then "E:rev" else model}"], fails := fails })
+  | "stkx" :: rest =>
+    let spec := rest.headD "-"
+    let items := if spec = "-" ∨ spec = "" then [] else spec.splitOn ","
+    let entries : List Bytes := items.map fun e =>
+      if e.startsWith "+" then Ticket.addExtraPrefix (unhx (dropPrefix e 1)) else unhx e
+    let echo := ",".intercalate (entries.map hx)
+    let model := match Ticket.findExtra entries with
+      | some r => s!"ok {hx r} entries={echo}"
+      | none => s!"nil entries={echo}"
+    let iw := words impl
+    let printed := ((kv iw "entries=").splitOn ",").filter (· ≠ "")
+    let fails : List Fail := noPanic <|
+      (if impl.startsWith "nil" ∧ items.any (·.startsWith "+") then
+         [("extra_found", "-", "an entry tagged by addSessionStateExtraPrefix is not found by findSessionStateExtraData")] else []) ++
+      (if impl.startsWith "ok " ∧ !(printed.any fun e => (if e = "-" then "" else e).endsWith (let r := iw.getD 1 "-"; if r = "-" then "" else r)) then
+         [("extra_found", "-", s!"findSessionStateExtraData returned {iw.getD 1 "-"}, which is the tail of no entry")] else []) ++
+      ((items.zip printed).filterMap fun (it, pr) =>
+         if it.startsWith "+" ∧ !(pr.endsWith (let x := dropPrefix it 1; if x = "-" then "" else x) ∧ hexLen pr = hexLen (dropPrefix it 1) + Ticket.extraPrefix.length) then
+           some ("extra_found", "-", s!"addSessionStateExtraPrefix({dropPrefix it 1}) = {pr}: not the tag followed by the data") else none)
+    (s, { model := model, tags := [s!"stkx:{if model.startsWith "ok" then "found" else "nil"}:{min entries.length 3}"], fails := fails })
   | ["smax", ms, a, b, c] =>
     let ws := [a, b, c]
     let n := streamMaxDataLen (kvn ws "sid=") (kvn ws "off=") (kv ws "len=" = "1") (natOf ms)
@@ -1092,4 +1169,126 @@ def step (s : St) (op impl : String) : St × StepOut :=
         { out with tags := out.tags ++ (if exp = "=" then [s!"parser:kept_exp:{w.getD (i - 1) ""}:{if p.ackDelayExponent = defaultAckDelayExponent then "default" else "other"}"] else []) })
     | none => stepCore s op impl
 
-def main : IO Unit := run { init := ({} : St), step := step }
+/-! ### memory ownership (`harness/drivers/wire/mem_test.go`)
+
+`at <pre> <slk> <inner>`: the inner codec call inside a caller-owned buffer.  `dirty <inner dec>`: the parse
+after the StreamFrame pool was filled with used objects, twice.  `vnc`: Version Negotiation composition on one
+caller-owned versions slice; the model is `Model.Wire.VNHeap` (theorems: `Uquic.Props.C08Alias`). -/
+
+/-- content of caller-owned bytes at arena position `i` (as `memPattern` in the driver) -/
+def memPattern (start n : Nat) : Bytes := (List.range n).map fun i => UInt8.ofNat ((0xc5 + 3 * (start + i)) % 256)
+
+def atEncKinds : List String := ["enc", "venc", "vencl", "enclhdr", "encshdr", "tpst"]
+def atDecKinds : List String := ["vparse", "dec", "lhdr", "shdr", "cid", "acid", "vn", "pred", "tpdec", "tpstdec", "tokdec", "stkdec"]
+/-- parse ops whose result the connection keeps after the receive buffer is reused: it is rendered again after
+    the input buffer was overwritten -/
+def atOwnKinds : List String := ["dec", "lhdr", "cid", "tpdec", "tpstdec", "stkdec"]
+
+def parseVList (t : String) : List Nat := if t = "-" ∨ t = "" then [] else (t.splitOn ",").map natOf
+
+def canaryVersion : Nat := 0xc5c5c5c5
+
+open Uquic.Model.TokenHeap Uquic.Model.Wire.VNHeap in
+def stepVNC (s : _root_.St) (fw : List String) (impl : String) : _root_.St × StepOut :=
+  let via := kv fw "via="
+  let vs := parseVList (kv fw "v=")
+  let d := unhx (kv fw "d=")
+  let sc := unhx (kv fw "s=")
+  let voff := kvn fw "voff="; let vslk := kvn fw "vslk="; let boff := kvn fw "boff="; let bslk := kvn fw "bslk="
+  if voff > 64 ∨ vslk > 64 ∨ boff > 64 ∨ bslk > 64 ∨ vs.length > 64 ∨ d.length > 255 ∨ sc.length > 255 then
+    (s, { model := "skip", tags := ["vnc:skip"] }) else
+  let key := " ".intercalate (fw.filter (fun w => !w.startsWith "via="))
+  let s : _root_.St := if s.vnKey = some key then s else
+    let varr := List.replicate voff canaryVersion ++ vs ++ List.replicate vslk canaryVersion
+    let barr := memPattern 0 boff ++ d ++ sc ++ memPattern (boff + d.length + sc.length) bslk
+    { s with vnKey := some key, vnHeap := [varr, barr.map (·.toNat)], vnGhostV := varr, vnGhostB := barr, vnCalls := 0 }
+  let sup : Slice := { arr := 0, off := voff, len := vs.length, cap := vs.length + vslk }
+  let dest : Slice := { arr := 1, off := boff, len := d.length, cap := d.length + sc.length + bslk }
+  let src : Slice := { arr := 1, off := boff + d.length, len := sc.length, cap := sc.length + bslk }
+  let iw := words impl
+  let rS := kv iw "r="
+  let pkt := unhx rS
+  -- the random draws are recovered from the output (DESIGN §3.3)
+  let listed : List Nat := if via = "g" then parseVList rS else Hdr.versionList (pkt.drop (7 + d.length + sc.length))
+  let good (i : Nat) : Bool := isReserved (listed.getD i 0) && listed.eraseIdx i == vs
+  let posOK := (List.range listed.length).find? good
+  let pos := match posOK with
+    | some i => i
+    | none => ((List.range listed.length).find? (fun i => isReserved (listed.getD i 0))).getD 0
+  let reserved := listed.getD pos 0
+  let g := getGreased s.vnHeap sup (min pos vs.length) reserved
+  let rModel :=
+    if via = "g" then vlist (bytesOf g.1 g.2)
+    else hx (Hdr.composeVersionNegotiation ((pkt.headD 0).toNat) (toBytes (bytesOf g.1 dest)) (toBytes (bytesOf g.1 src)) (bytesOf g.1 g.2))
+  let heap' := g.1.take 2
+  let model := s!"r={rModel} vmem={vlist (readArr heap' 0)} bmem={hx (toBytes (readArr heap' 1))}"
+  let fails : List Fail :=
+    if isPanic impl then [("no_panic", "-", "composing a Version Negotiation packet panicked")] else
+    (if kv iw "vmem=" ≠ vlist s.vnGhostV then
+       [("caller_memory_untouched", "-", s!"the array behind the caller's versions slice reads {kv iw "vmem="} after call {s.vnCalls + 1}, it was built as {vlist s.vnGhostV}")] else []) ++
+    (if kv iw "bmem=" ≠ hx s.vnGhostB then
+       [("caller_memory_untouched", "-", s!"the buffer behind the connection IDs reads {kv iw "bmem="}, it was built as {hx s.vnGhostB}")] else []) ++
+    (if posOK.isNone then
+       [("vn_lists_supported", "-", s!"call {s.vnCalls + 1} lists versions {vlist listed}: not the supported versions {vlist vs} plus one reserved version")] else []) ++
+    (if via ≠ "g" ∧ pkt.length ≠ 7 + d.length + sc.length + 4 * (vs.length + 1) then
+       [("length_exact", "-", s!"version negotiation packet has {pkt.length} bytes, expected {7 + d.length + sc.length + 4 * (vs.length + 1)}")] else []) ++
+    (if via ≠ "g" ∧ ((pkt.headD 0).toNat < 128 ∨
+         (pkt.drop 1).take (6 + d.length + sc.length) ≠ [0, 0, 0, 0, UInt8.ofNat d.length] ++ d ++ [UInt8.ofNat sc.length] ++ sc) then
+       [("vn_layout_rfc", "-", s!"RFC 8999 §6 layout (long form, version 0, both connection IDs) not met by {rS}")] else [])
+  let tags := [s!"vnc:{if via = "g" then "greased" else "compose"}:{if vslk = 0 then "tight" else "slack"}:{if pos = 0 then "first" else if pos ≥ vs.length then "last" else "mid"}",
+               s!"vnc:call{min (s.vnCalls + 1) 4}:n{min vs.length 3}", if voff > 0 ∨ boff > 0 then "vnc:offset" else "vnc:front"]
+  ({ s with vnHeap := heap', vnCalls := s.vnCalls + 1 }, { model := model, tags := tags, fails := fails })
+
+def stepTop (s : St) (op impl : String) : St × StepOut :=
+  match words op with
+  | "vnc" :: fw => stepVNC s fw impl
+  | "dirty" :: inner =>
+    if inner.headD "" ≠ "dec" ∧ inner.headD "" ≠ "ssplit" then (s, { model := "skip", tags := ["dirty:skip"] }) else
+    let parts := impl.splitOn " @@ "
+    let second := parts.getD 1 (parts.headD impl)
+    let (s', out) := step s (" ".intercalate inner) second
+    if out.model = "PANIC" ∨ isPanic impl then (s', { out with tags := out.tags ++ ["dirty:panic"] }) else
+    let fails : List Fail :=
+      if parts.length = 2 ∧ parts.headD "" ≠ second then
+        [("pooled_object_reinitialised", "-", s!"`{inner.headD ""}` answers `{parts.headD ""}` and `{second}` for the same input depending on what the pooled StreamFrame held before")]
+      else []
+    (s', { model := s!"{out.model} @@ {out.model}", tags := out.tags ++ [s!"dirty:{(out.model.take 9).toString}"], fails := out.fails ++ fails })
+  | "at" :: pre :: slk :: inner =>
+    let kind := inner.headD ""
+    let isEnc := atEncKinds.contains kind
+    let isDec := atDecKinds.contains kind
+    if inner.isEmpty ∨ natOf pre > 4096 ∨ natOf slk > 4096 ∨ (!isEnc ∧ !isDec) then (s, { model := "skip", tags := ["at:skip"] }) else
+    let parts := impl.splitOn " @@ "
+    let innerImpl := parts.headD impl
+    let (s', out) := step s (" ".intercalate inner) innerImpl
+    if out.model = "PANIC" ∨ out.model = "skip" then (s', { out with tags := out.tags ++ ["at:bare"] }) else
+    let capTag := if natOf slk = 0 then "tight" else "slack"
+    if isEnc then
+      let want := hx (memPattern 0 (natOf pre))
+      -- an encoder that refuses (error) still returns; the caller's bytes are judged all the same
+      let model := s!"{out.model} @@ pre={if out.model.startsWith "E:" then "?" else want} mem={want}"
+      let iw := words (parts.getD 1 "")
+      let fails : List Fail :=
+        if isPanic impl ∨ parts.length < 2 then [] else
+        (if kv iw "pre=" ≠ "?" ∧ kv iw "pre=" ≠ want then
+           [("append_keeps_prefix", "-", s!"{kind}: the {pre} bytes in front of the appended encoding read {kv iw "pre="} in the returned slice, they were {want}")] else []) ++
+        (if kv iw "mem=" ≠ want then
+           [("append_keeps_prefix", "-", s!"{kind}: the caller's {pre} bytes read {kv iw "mem="} after Append, they were {want}")] else [])
+      (s', { model := model, tags := out.tags ++ [s!"at:enc:{capTag}:{if natOf pre = 0 then "empty" else "content"}"], fails := out.fails ++ fails })
+    else
+      let data := unhx (inner.getLast?.getD "-")
+      let arena := memPattern 0 (natOf pre) ++ data ++ memPattern (natOf pre + data.length) (natOf slk)
+      -- only values the connection keeps beyond the life of the receive buffer (of a long header: the Retry token)
+      let own := atOwnKinds.contains kind ∧ out.model.startsWith "ok" ∧
+        (kind ≠ "lhdr" ∨ kvn (words out.model) "t=" = Hdr.ptRetry)
+      let model := s!"{out.model} @@ mem={hx arena} @@ {if own then out.model else "-"}"
+      let fails : List Fail :=
+        if isPanic impl ∨ parts.length < 3 then [] else
+        (if parts.getD 1 "" ≠ s!"mem={hx arena}" then
+           [("parse_keeps_input", "-", s!"{kind}: the buffer around the parsed bytes reads {parts.getD 1 ""} after the call, it was {hx arena}")] else []) ++
+        (if parts.getD 2 "-" ≠ "-" ∧ parts.getD 2 "-" ≠ innerImpl then
+           [("parsed_value_owns_memory", "-", s!"{kind}: parsed `{innerImpl}`; after the input buffer was overwritten the same value reads `{parts.getD 2 "-"}`")] else [])
+      (s', { model := model, tags := out.tags ++ [s!"at:dec:{capTag}:{if own then "own" else "plain"}"], fails := out.fails ++ fails })
+  | _ => step s op impl
+
+def main : IO Unit := run { init := ({} : St), step := stepTop }
